@@ -27,10 +27,14 @@ class Ctx:
         self.queries = 0
         self.eq_seen = set()
         self.havocked = False
+        self.val_syms = []
 
     def fresh(self, sort, hint="v"):
         self.n += 1
-        return z3.Const(f"{hint}!{self.n}", sort)
+        c = z3.Const(f"{hint}!{self.n}", sort)
+        if sort == Val:
+            self.val_syms.append(c)
+        return c
 
     def assume(self, f):
         self.pc.append(f)
@@ -98,7 +102,9 @@ class Ctx:
         k = (a.sexpr(), b.sexpr())
         if k not in self.eq_seen:
             self.eq_seen.add(k)
+            # A7, ground instances: reflexive on identical objects, symmetric
             self.assume(z3.Implies(a == b, t))
+            self.assume(t == eq(b, a))
         return t
 
 
@@ -381,13 +387,15 @@ EXC_PARENTS["NameError"] = "Exception"
 
 class Program:
     """the package under verification (or the reference sidecar) as a set of linked modules"""
-    def __init__(self, root, package):
-        self.root, self.package = root, package
+    def __init__(self, root, package, fallback=None):
+        self.root, self.package, self.fallback = root, package, fallback
         self.modules = {}
 
     def module(self, modname):
         if modname not in self.modules:
             path = os.path.join(self.root, modname + ".py")
+            if not os.path.exists(path) and self.fallback:
+                path = os.path.join(self.fallback, modname + ".py")
             self.modules[modname] = Module(self, modname, path)
         return self.modules[modname]
 
@@ -706,6 +714,16 @@ class Interp:
                 return Pending(fn.name, fn.src, args[0] if args else None)
             if fn.name == "__next__":
                 return (yield from self.pull(fn.src))
+        if isinstance(fn, GenMethod) and isinstance(fn.gen, NativeIter):
+            g = fn.gen
+            if fn.name in ("__aiter__", "__iter__"):
+                return g
+            if fn.name == "__next__":
+                return (yield from self.pull(g, site, sync=True))
+            if fn.name == "__anext__":
+                return Pending("pull", g)
+            if fn.name == "aclose":
+                return Pending("native_aclose", g)
         if isinstance(fn, GenMethod):
             g = fn.gen
             if fn.name in ("__aiter__", "__iter__"):
@@ -838,6 +856,9 @@ class Interp:
                 return (yield from self.pull(aw.target, site))
             if k == "aclose":
                 return (yield from self.aclose_source(aw.target, site))
+            if k == "native_aclose":
+                aw.target.kind, aw.target.data, aw.target.idx = "seq", [], 0
+                return None
             if k == "gen_anext":
                 return (yield from aw.target.anext())
             if k == "gen_aclose":
@@ -952,6 +973,11 @@ class Interp:
             raise PyRaise(ExcVal("AttributeError", ident=("attr", name)))
         if isinstance(o, GenObj):
             if name in ("__anext__", "aclose", "asend", "athrow", "__aiter__", "__next__", "__iter__", "close"):
+                return GenMethod(o, name)
+            raise PyRaise(ExcVal("AttributeError", ident=("attr", name)))
+        if isinstance(o, NativeIter):
+            # the async iterator `_core.aiter` provides for a plain iterable: an async generator (has aclose)
+            if name in ("__anext__", "aclose", "__aiter__", "__next__", "__iter__"):
                 return GenMethod(o, name)
             raise PyRaise(ExcVal("AttributeError", ident=("attr", name)))
         if isinstance(o, SList):
@@ -1306,7 +1332,7 @@ class Frame:
             raise PyRaise(self.exc_stack[-1])
         e = yield from self.ev(s.exc)
         if isinstance(e, ExcClass):
-            e = ExcVal(e.name)
+            e = ExcVal(e.name, ident=("raised-at", s.lineno))
         if not isinstance(e, ExcVal):
             raise Unsupported(f"raise {e!r}")
         if s.cause is not None:
@@ -1500,6 +1526,8 @@ class Frame:
         if isinstance(v, (Source, GenObj)):
             if isinstance(v, GenObj) and not v.is_async:
                 raise PyRaise(ExcVal("TypeError", ident="async for over sync generator"))
+            return v
+        if isinstance(v, NativeIter) and v.kw.get("async_wrapped"):
             return v
         if isinstance(v, Obj):
             m = v.cls.lookup("__aiter__")
@@ -1775,7 +1803,8 @@ class Frame:
     def binop(self, op, l, r, node, inplace=False):
         if isinstance(l, Opaque) or isinstance(r, Opaque):
             name = type(op).__name__.lower()
-            if inplace:
+            if inplace and isinstance(l, Opaque):
+                # in-place operators are only distinguishable (and may mutate) on a user object as left operand
                 name = "i" + name
             resp = yield Ev("Op", name, (l, r), site=site_of(node))
             self.ctx.evseq += 1
@@ -1812,11 +1841,11 @@ class Frame:
             return mk_int(li - ri)
         if isinstance(op, ast.Mult):
             return mk_int(li * ri)
-        if isinstance(op, ast.Mod):
-            # python % equals SMT-LIB mod for a positive divisor; other divisors are outside the contracts
+        if isinstance(op, (ast.Mod, ast.FloorDiv)):
+            # python % and // equal SMT-LIB mod/div for a positive divisor; other divisors are outside the contracts
             if not self.ctx.branch(ri > 0):
-                raise Unsupported("modulo by a non-positive symbolic divisor")
-            return mk_int(li % ri)
+                raise Unsupported("modulo/floor division by a non-positive symbolic divisor")
+            return mk_int(li % ri) if isinstance(op, ast.Mod) else mk_int(li / ri)
         raise Unsupported(f"binop {type(op).__name__}")
 
     def e_JoinedStr(self, e):
